@@ -296,6 +296,7 @@ impl AuthQueryService for FakeCelestia {
     ) -> Result<Response<QueryAccountResponse>, Status> {
         let address = request.into_inner().address;
         let reply = self.simple(RpcKind::Account, |w| {
+            w.drain_started = true;
             let account = BaseAccount {
                 address,
                 pub_key: None,
@@ -476,6 +477,13 @@ impl SequencerService for FakeSequencer {
                         let block = blocks::build(&world::block_spec_for(&w, height));
                         w.handed.insert(height);
                         w.handed_this_incarnation.insert(height);
+                        if !w.drain_started {
+                            w.served_before_drain += 1;
+                            if w.served_before_drain == 129 {
+                                // 128 in the channel + 1 parked in `forward_once_free`
+                                w.stats.probe("reader_backpressure_channel_full");
+                            }
+                        }
                         w.ev(format!("t={t} seq_get_block#{nth} height={height} -> served"));
                         Ok(block.into_raw())
                     } else {
@@ -732,6 +740,8 @@ async fn drive_inner(shared: Shared, sc: &Scenario, timed: &mut TimedOps) -> Pro
         w.in_write = false;
         w.first_write_begun = false;
         w.writes_this_incarnation = 0;
+        w.served_before_drain = 0;
+        w.drain_started = false;
         w.killed = false;
         w.kill_at_end_of_poll = false;
         w.handed_this_incarnation.clear();
@@ -1191,7 +1201,10 @@ pub(crate) fn run(sc: &Scenario) -> Outcome {
     let mut viol = dry.violations;
     // the enumerated crash points of incarnation 0: every counted suspension of the root future,
     // plus the three points of every `State::write` and two torn variants of each write
+    // long waits (GetTx polling of a BlobTx that is late or lost) repeat the same suspension
+    // pattern: beyond the first 150 suspensions every 7th is taken
     let mut points: Vec<KillAt> = (1..=n)
+        .filter(|k| *k <= 150 || k % 7 == 0)
         .map(|k| KillAt::Poll {
             inc: 0,
             k,
